@@ -210,7 +210,9 @@ def burst_history(report, drv, store, evs, tag, rng):
             res = store.submit(n)
             by_id.setdefault(n["id"], n)
             if res["ok"]:
-                order.setdefault(n["id"], len(order))
+                # (an id accepted again later — its first copy had been superseded meanwhile — counts from its last acceptance:
+                # an older version arriving after a newer one may stay)
+                order[n["id"]] = len(accepted)
                 accepted.append(n)
                 me = model_event(n)
                 if me is None:
@@ -220,7 +222,7 @@ def burst_history(report, drv, store, evs, tag, rng):
         store.quiesce()
     after = store.ids()
     payload = {"backend": "kv", "case": "burst", "events": evs}
-    for n in accepted:
+    for n in {e["id"]: e for e in accepted}.values():
         if n["id"] not in after or address(n) is None:
             continue
         older = [o for o in accepted if o["id"] in after and o["id"] != n["id"] and address(o) == address(n)
